@@ -106,7 +106,12 @@ func execLogged(logf *os.File, idx int, in *Input) {
 	curIdx.Store(int64(idx))
 	curCPU.Store(int64(cpuSeconds() * 1000))
 	curStart.Store(time.Now().UnixNano())
-	o := Exec(in, filepath.Join(tmp, fmt.Sprintf("w%d", os.Getpid())))
+	wdir := filepath.Join(tmp, fmt.Sprintf("w%d", os.Getpid()))
+	if err := os.MkdirAll(wdir, 0o755); err != nil {
+		fmt.Fprintf(logf, "FATAL cannot create %s: %v\n", wdir, err)
+		os.Exit(5)
+	}
+	o := Exec(in, wdir)
 	curStart.Store(0)
 	for i, p := range o.Panics {
 		fmt.Fprintf(logf, "P %d %s\nSTACK %s\n", idx, strings.ReplaceAll(p, "\n", " "), strings.ReplaceAll(o.Stacks[i], "\n", "\\n"))
@@ -133,6 +138,8 @@ type finding struct {
 	what  string
 	stack string
 }
+
+var hangs, crashes atomic.Int64
 
 var crashLine = regexp.MustCompile(`(?m)^(panic: .*|fatal error: .*)$`)
 
@@ -170,6 +177,7 @@ func run(r *core.Run) int {
 	}
 	var mu sync.Mutex
 	var findings []finding
+	var skipped atomic.Int64
 	var next atomic.Int64
 	var wg sync.WaitGroup
 	workers := runtime.GOMAXPROCS(0)
@@ -182,6 +190,10 @@ func run(r *core.Run) int {
 				if ci >= len(chunks) {
 					return
 				}
+				if hangs.Load() >= 3 || crashes.Load() >= 200 {
+					skipped.Add(1) // a tree that already hangs / crashes this often is not explored further
+					continue
+				}
 				fs := runChunk(r, chunks[ci], corpusPath, work, fmt.Sprintf("w%d-c%d", w, ci))
 				mu.Lock()
 				findings = append(findings, fs...)
@@ -190,6 +202,9 @@ func run(r *core.Run) int {
 		}(w)
 	}
 	wg.Wait()
+	if n := skipped.Load(); n > 0 {
+		r.Set("stopped_early", fmt.Sprintf("%d chunks were not executed after 3 hangs / 200 crashes", n))
+	}
 	for _, f := range findings {
 		in := Gen(corpus, f.part, r.Seed, f.idx)
 		r.Count("finding-"+f.kind, 1)
@@ -206,6 +221,7 @@ func run(r *core.Run) int {
 	return r.Finish(r.Pick(50000, 1000000),
 		core.Require{Counter: "deep-E", Why: "no envelope got past the outer decoder"},
 		core.Require{Counter: "deep-X", Why: "no hostile chain was parseable"},
+		core.Require{Counter: "deep-F", Why: "no mutated certificate / key file was readable at all"},
 		core.Require{Counter: "network-B", Why: "no hostile body was ever requested"})
 }
 
@@ -215,6 +231,9 @@ func runChunk(r *core.Run, c chunk, corpusPath, work, tag string) []finding {
 	var out []finding
 	start := c.start
 	for attempt := 0; start < c.end && attempt < 50; attempt++ {
+		if hangs.Load() >= 3 || crashes.Load() >= 200 {
+			return out
+		}
 		logPath := filepath.Join(work, fmt.Sprintf("c09-%s-%s-%d.log", c.part, tag, attempt))
 		outPath := logPath + ".out"
 		os.Remove(logPath) // never scan a stale log
@@ -243,10 +262,12 @@ func runChunk(r *core.Run, c chunk, corpusPath, work, tag string) []finding {
 			if blocked(dump) {
 				f.kind, f.sig, f.what, f.stack = "hang", "hang:"+TopLibFrame(dump), "call still blocked after 60 s", trunc(dump, 6000)
 				out = append(out, f)
+				hangs.Add(1)
 			} else if cpu >= 30 && strings.Contains(dump, libPath) {
 				// not blocked but spinning: 30+ CPU-seconds on one small input
 				f.kind, f.sig, f.what, f.stack = "hang", "spin:"+TopLibFrame(dump), fmt.Sprintf("call still running after 60 s and %.0f CPU-seconds inside the library", cpu), trunc(dump, 6000)
 				out = append(out, f)
+				hangs.Add(1)
 			} else {
 				r.Inconclusive(fmt.Sprintf("input %s#%d ran longer than 60 s on a runnable goroutine", c.part, culprit))
 			}
@@ -257,12 +278,13 @@ func runChunk(r *core.Run, c chunk, corpusPath, work, tag string) []finding {
 			if m := crashLine.FindString(res.Output); m != "" {
 				line = m
 			}
+			crashes.Add(1)
 			f.kind, f.sig, f.what, f.stack = "crash", "crash:"+TopLibFrame(res.Output), fmt.Sprintf("worker process died (exit %d): %s", res.ExitCode, trunc(line, 200)), trunc(res.Output, 6000)
 			out = append(out, f)
 		}
 		start = culprit + 1
 	}
-	if start < c.end {
+	if start < c.end && hangs.Load() < 3 && crashes.Load() < 200 {
 		r.Inconclusive(fmt.Sprintf("gave up on %s [%d,%d) after 50 worker restarts", c.part, start, c.end))
 	}
 	return out
